@@ -18,6 +18,7 @@ type EvalCtx struct {
 	guard  string
 	bound  map[string]Val
 
+	isOld   bool
 	skolem  bool              // skolemise positive universal quantifiers (goal position)
 	neg     bool              // current polarity is negative
 	noq     bool              // inside <==> / ite condition: no skolemisation or instantiation
@@ -41,6 +42,7 @@ func (c *EvalCtx) opaque() *EvalCtx {
 func (c *EvalCtx) withOld() *EvalCtx {
 	n := *c
 	n.st = c.oldSt
+	n.isOld = true
 	if c.oldEnv != nil {
 		n.env = c.oldEnv
 	}
@@ -200,6 +202,9 @@ func (g *FnGen) eval(e Expr, ctx *EvalCtx) Val {
 	case EIdent:
 		if v, ok := ctx.bound[x.Name]; ok {
 			return v
+		}
+		if cv, ok := g.root().cellVars[x.Name]; ok && !ctx.isOld {
+			return g.load(ctx.st, cv)
 		}
 		if v, ok := ctx.env[x.Name]; ok {
 			return v
@@ -634,7 +639,7 @@ func (g *FnGen) evalCall(x ECall, ctx *EvalCtx) Val {
 		if rs == "" {
 			efail("alias %s: unknown result type %s", x.Fn, al.ResType)
 		}
-		fn := fmt.Sprintf("pf_%s_%d", sanitize(al.Func), 0)
+		fn := fmt.Sprintf("pf_%s_%d", sanitize(al.Func), al.Index)
 		g.D.declare("pure:"+fn, fmt.Sprintf("(declare-fun %s (%s) %s)", fn, strings.Join(as, " "), rs))
 		t := fn
 		if len(ts) > 0 {
